@@ -105,12 +105,12 @@ theorem once_regexBlock {inp : Input} {ex : Option LId} {s : Sys} (l : LId) (g :
   apply h.quiet
   unfold regexBlock
   split
-  · exact Quiet.of_eq rfl rfl rfl rfl
+  · exact Quiet.of_eq rfl rfl rfl rfl rfl
   · split
-    · exact Quiet.of_eq rfl rfl rfl rfl
+    · exact Quiet.of_eq rfl rfl rfl rfl rfl
     · split
-      · split <;> exact Quiet.of_eq rfl rfl rfl rfl
-      · exact Quiet.of_eq rfl rfl rfl rfl
+      · split <;> exact Quiet.of_eq rfl rfl rfl rfl rfl
+      · exact Quiet.of_eq rfl rfl rfl rfl rfl
 
 theorem once_finishLoader {inp : Input} {s : Sys} {n : Name} {nd : Node} {l : LId} {tk' : TDef}
     (h : OnceCore inp (some l) s) (ht : tk'.loader = none) : OnceInv inp (finishLoader s n nd l tk') := by
@@ -180,7 +180,7 @@ theorem OnceCore.weaken {inp : Input} {s : Sys} (l : LId) (h : OnceInv inp s) : 
 /-- the creator call: not evaluated before (that is C15 `once`), and — unless registering the new tasks raised — the
     invariant survives with `l` exempted -/
 theorem once_evalCreator {inp : Input} (wf : OnceWF inp) {s : Sys} {n : Name} {l : LId} {tT : TDef}
-    (h : OnceInv inp s) (hh : Holder inp n l) (hT : s.tasks (toLoad inp l n) = some tT) (hm : mustCreate s tT = true) :
+    (h : OnceInv inp s) (hh : Holder inp n l) (hT : s.tasks (toLoad inp l n) = some tT) (hm : mustCreate inp s l tT = true) :
     onceOK (evalCreator inp s l (toLoad inp l n)).events = true ∧
     (OnceCore inp (some l) (evalCreator inp s l (toLoad inp l n)) ∨
      ∃ e, (evalCreator inp s l (toLoad inp l n)).susp = .err e) := by
@@ -189,7 +189,7 @@ theorem once_evalCreator {inp : Input} (wf : OnceWF inp) {s : Sys} {n : Name} {l
     unfold mustCreate at hm
     cases hx : tT.loader with
     | none => simp [hx] at hm
-    | some l' => simp only [hx] at hm; exact ⟨l', rfl, by simpa using hm⟩
+    | some l' => simp only [hx, Bool.and_eq_true] at hm; exact ⟨l', rfl, by simpa using hm.1⟩
   have hres : ∀ q lq, Holder inp q lq → ∀ td l2, s.tasks (toLoad inp lq q) = some td → td.loader = some l2 → l2 = lq := by
     intro q lq hq td l2 h1 h2
     obtain ⟨td0, h3, h4⟩ := h.l1 _ td l2 h1 h2
@@ -240,7 +240,7 @@ theorem once_loaderStep {inp : Input} (wf : OnceWF inp) {s : Sys} {n : Name} {nd
     · exact Or.inr ⟨e, h3, h2.o⟩
   unfold loaderStep
   cases hT : s.tasks (toLoad inp l n) with
-  | none => exact Or.inl (h.quiet (Quiet.of_eq rfl rfl rfl rfl))
+  | none => exact Or.inl (h.quiet (Quiet.of_eq rfl rfl rfl rfl rfl))
   | some tT =>
     simp only []
     split
@@ -310,7 +310,7 @@ theorem once_step {inp : Input} (wf : OnceWF inp) {s s' : Sys} {c : Choice} (h :
     | resume =>
       simp only [step] at hs
       split at hs
-      · cases hs; exact Or.inl (h.quiet (Quiet.of_eq rfl rfl rfl rfl))
+      · cases hs; exact Or.inl (h.quiet (Quiet.of_eq rfl rfl rfl rfl rfl))
       · cases hs
     | finish n perm => exact Or.inl (h.quiet (quiet_finishStep hs))
   · exact (step_err_none he hs).elim
@@ -319,5 +319,124 @@ theorem once_reach {inp : Input} (wf : OnceWF inp) {s : Sys} (hr : Reach inp s) 
   induction hr with
   | init => exact Or.inl (once_init inp)
   | next _ hs ih => exact once_step wf ih hs
+
+/-! ### the repaired dispatcher (`evaluated_creators`): "once" without any hypothesis on the input -/
+
+/-- every creator whose evaluation is in the trace is in `evaluated_creators`; no creator was evaluated twice -/
+structure EvalInv (s : Sys) : Prop where
+  mem : ∀ c, Ev.creator c ∈ s.events → c ∈ s.evaluated
+  o : onceOK s.events = true
+
+theorem EvalInv.quiet {s s' : Sys} (h : EvalInv s) (q : Quiet s s') : EvalInv s' := by
+  obtain ⟨pre, hev, hpre⟩ := q.ev
+  constructor
+  · intro c hc
+    rw [q.evald]
+    rw [hev] at hc
+    rcases List.mem_append.mp hc with h3 | h3
+    · exact absurd rfl (hpre _ h3 _)
+    · exact h.mem c h3
+  · rw [hev, onceOK_append_quiet pre _ hpre]; exact h.o
+
+/-- only fields the invariant does not read differ -/
+theorem EvalInv.congr {s s' : Sys} (h : EvalInv s) (h1 : s'.events = s.events) (h2 : s'.evaluated = s.evaluated) :
+    EvalInv s' :=
+  ⟨fun c hc => by rw [h2]; exact h.mem c (by rw [← h1]; exact hc), by rw [h1]; exact h.o⟩
+
+theorem regexBlock_same (inp : Input) (s : Sys) (l : LId) (g : GId) :
+    (regexBlock inp s l g).events = s.events ∧ (regexBlock inp s l g).evaluated = s.evaluated := by
+  unfold regexBlock
+  split
+  · exact ⟨rfl, rfl⟩
+  · split
+    · exact ⟨rfl, rfl⟩
+    · split
+      · split <;> exact ⟨rfl, rfl⟩
+      · exact ⟨rfl, rfl⟩
+
+theorem finishLoader_same (s : Sys) (n : Name) (nd : Node) (l : LId) (tk' : TDef) :
+    (finishLoader s n nd l tk').events = s.events ∧ (finishLoader s n nd l tk').evaluated = s.evaluated := by
+  unfold finishLoader
+  cases s.tasks n with
+  | none => exact ⟨rfl, rfl⟩
+  | some cur => simp only []; split <;> exact ⟨rfl, rfl⟩
+
+theorem afterCreate_same (inp : Input) (s : Sys) (n : Name) (nd : Node) (l : LId) :
+    (afterCreate inp s n nd l).events = s.events ∧ (afterCreate inp s n nd l).evaluated = s.evaluated := by
+  unfold afterCreate
+  cases nd.task.rx with
+  | none => exact finishLoader_same _ _ _ _ _
+  | some g =>
+    simp only []
+    have hr := regexBlock_same inp s l g
+    split
+    · exact hr
+    · have hf := finishLoader_same (regexBlock inp s l g) n nd l (mutated s nd.task)
+      exact ⟨hf.1.trans hr.1, hf.2.trans hr.2⟩
+
+theorem eval_evalCreator {inp : Input} {s : Sys} {l : LId} (tname : Name) (h : EvalInv s)
+    (hfresh : inp.creatorOf l ∉ s.evaluated) : EvalInv (evalCreator inp s l tname) := by
+  have hnot : Ev.creator (inp.creatorOf l) ∉ s.events := fun hc => hfresh (h.mem _ hc)
+  have honce : onceOK (Ev.creator (inp.creatorOf l) :: s.events) = true := by
+    simp only [onceOK, h.o, Bool.and_true, Bool.not_eq_true']
+    simpa using hnot
+  have hmem : ∀ c, Ev.creator c ∈ Ev.creator (inp.creatorOf l) :: s.events → c ∈ s.evaluated ++ [inp.creatorOf l] := by
+    intro c hc
+    rcases List.mem_cons.mp hc with h1 | h1
+    · rw [Ev.creator.inj h1]; simp
+    · exact List.mem_append_left _ (h.mem c h1)
+  unfold evalCreator
+  split
+  · exact ⟨hmem, honce⟩
+  · exact ⟨hmem, honce⟩
+
+theorem eval_loaderStep {inp : Input} (hp : inp.pinnedOnce = false) {s : Sys} (n : Name) (nd : Node) (l : LId)
+    (h : EvalInv s) : EvalInv (loaderStep inp s n nd l) := by
+  unfold loaderStep
+  cases s.tasks (toLoad inp l n) with
+  | none => exact h.congr rfl rfl
+  | some tT =>
+    simp only []
+    split
+    · rename_i hm
+      have hfresh : inp.creatorOf l ∉ s.evaluated := by
+        unfold mustCreate at hm
+        simp only [hp, Bool.false_or, Bool.and_eq_true, Bool.not_eq_true'] at hm
+        simpa using hm.2
+      have h1 := eval_evalCreator (toLoad inp l n) h hfresh
+      split
+      · exact h1
+      · have hs := afterCreate_same inp (evalCreator inp s l (toLoad inp l n)) n nd l
+        exact h1.congr hs.1 hs.2
+    · have hs := afterCreate_same inp s n nd l
+      exact h.congr hs.1 hs.2
+
+theorem eval_step {inp : Input} (hp : inp.pinnedOnce = false) {s s' : Sys} {c : Choice} (h : EvalInv s)
+    (hs : step inp s c = some s') : EvalInv s' := by
+  cases c with
+  | tick perm =>
+    simp only [step] at hs
+    cases hsu : s.susp with
+    | running =>
+      simp only [hsu] at hs; cases hs
+      rcases dtick_cases inp s with q | ⟨n, nd, l, _, _, heq⟩
+      · exact h.quiet q
+      · rw [heq]; exact eval_loaderStep hp n nd l h
+    | yielded n => simp only [hsu] at hs; exact h.quiet (quiet_selectStep hs)
+    | idle => simp [hsu] at hs
+    | holdOn => simp [hsu] at hs
+    | stopIter => simp [hsu] at hs
+    | err e => simp [hsu] at hs
+  | resume =>
+    simp only [step] at hs
+    split at hs
+    · cases hs; exact h.congr rfl rfl
+    · cases hs
+  | finish n perm => exact h.quiet (quiet_finishStep hs)
+
+theorem eval_reach {inp : Input} (hp : inp.pinnedOnce = false) {s : Sys} (hr : Reach inp s) : EvalInv s := by
+  induction hr with
+  | init => exact ⟨fun _ hc => by simp [init] at hc, rfl⟩
+  | next _ hs ih => exact eval_step hp ih hs
 
 end DoitModel.Delayed
